@@ -7,6 +7,7 @@ import (
 	"bufio"
 	"encoding/json"
 	"fmt"
+	"io"
 	"os"
 	"regexp"
 	"strconv"
@@ -26,6 +27,11 @@ type scanOutcome struct {
 }
 
 func scanWithWatchdog(text string, limit time.Duration) scanOutcome {
+	return scanSplitWithWatchdog(text, -1, limit)
+}
+
+// split >= 0: the text reaches the scanner in two reads, [0,split) and the rest
+func scanSplitWithWatchdog(text string, split int, limit time.Duration) scanOutcome {
 	ch := make(chan scanOutcome, 1)
 	go func() {
 		out := scanOutcome{Outcome: "values"}
@@ -38,7 +44,11 @@ func scanWithWatchdog(text string, limit time.Duration) scanOutcome {
 				ch <- scanOutcome{Outcome: "panic", Detail: s}
 			}
 		}()
-		sc := seqio.NewAutoScanner(strings.NewReader(text))
+		var rd io.Reader = strings.NewReader(text)
+		if split >= 0 {
+			rd = newSplitReader(text, split)
+		}
+		sc := seqio.NewAutoScanner(rd)
 		for sc.Scan() {
 			v := sc.Value()
 			out.Lens = append(out.Lens, len(v.Bytes()))
@@ -136,10 +146,14 @@ func emitScan(emit func(J), c J, variant string, text string, crlf bool) {
 
 // col: for a truncation, the column of the cut inside its line (-1 otherwise)
 func emitScanCol(emit func(J), c J, variant string, text string, crlf bool, col int) {
+	emitScanSplit(emit, c, variant, text, crlf, col, -1)
+}
+
+func emitScanSplit(emit func(J), c J, variant string, text string, crlf bool, col int, split int) {
 	if crlf {
 		text = strings.ReplaceAll(text, "\n", "\r\n")
 	}
-	o := scanWithWatchdog(text, 10*time.Second)
+	o := scanSplitWithWatchdog(text, split, 10*time.Second)
 	lens, decl := o.Lens, o.Declared
 	if lens == nil {
 		lens = []int{}
@@ -173,6 +187,32 @@ func runMutCase(c J, emit func(J)) {
 		hi := lo + len(lines[i-1]) + 1
 		for cut := lo; cut < hi && cut < len(text); cut++ {
 			emitScanCol(emit, c, fmt.Sprintf("trunc@%d", cut), text[:cut], false, cut-lo)
+		}
+	case "split":
+		// the (mutated) text reaches the scanner in two reads, cut at every offset: the parser's buffer
+		// ends there until it asks for more; the outcome must not depend on it
+		for k := 1; k < len(text); k++ {
+			emitScanSplit(emit, c, fmt.Sprintf("split@%d", k), text, false, -1, k)
+		}
+		crlf := strings.ReplaceAll(text, "\n", "\r\n")
+		for k := 1; k < len(crlf); k += 3 {
+			emitScanSplit(emit, c, fmt.Sprintf("splitcr@%d", k), crlf, false, -1, k)
+		}
+	case "pad":
+		// a COMMENT continuation line of every length after line i: the rest of the record takes every
+		// offset modulo the reader's buffer size
+		i := asInt(bop["i"])
+		if i > len(lines) {
+			i = len(lines)
+		}
+		head := strings.Join(lines[:i], "\n") + "\n"
+		tail := strings.Join(lines[i:], "\n") + "\n"
+		for m := 0; m <= 4300; m++ {
+			padded := head + "            " + strings.Repeat("x", m) + "\n" + tail
+			emitScan(emit, c, fmt.Sprintf("pad+%d", m), padded, false)
+			if m%7 == 0 {
+				emitScan(emit, c, fmt.Sprintf("pad+%d", m), padded, true)
+			}
 		}
 	case "flip":
 		i := asInt(bop["i"])
